@@ -5,6 +5,11 @@ import json, os
 HERE = os.path.dirname(os.path.dirname(os.path.abspath(__file__)))
 
 CHECKS = {
+ "C01": dict(
+    design="DESIGN.md §3 C01",
+    technique="property-based testing (Hypothesis) over generated programs x inputs x configurations; oracles: recording user function + independent schema-driven reference XML codec + libxml2 validation of the request",
+    text="Exploration: generated type universes (nested classes, inheritance, wrapped/unwrapped arrays, XML attributes, enums, facets, 1-3 namespaces), generated method signatures (wrapped/bare/out_bare, 0-4 args, 0-3 returns) and conformant boundary-biased values are sent as schema-valid requests written by an independent reference encoder (4 spelling variants) through XmlDocument/Soap11/Soap12 x validator None/soft/lxml; the recorded arguments and the reference-decoded response must equal what was sent/returned. Held on everything explored; not a proof.",
+    note="Trusted: libxml2 validation, pbt/ref_xml.py + pbt/lex.py (independent codec), the published schema for element names/order (checked by C06/C07)."),
  "C08": dict(
     design="DESIGN.md §3 C08",
     technique="property-based testing (Hypothesis) + exhaustive enumeration; oracles: libxml2 simple-type validity, round-trip, independently computed denotation of generated XSD literals",
